@@ -113,6 +113,30 @@ func scenario(n int, state, kind, layout, spelling string) *WS {
 	return ws
 }
 
+// via: the same scenario, but the invocation reaches the workspace through a symbolic link (ws.Via): the repository
+// itself is the link's target ("link": an argument naming the workspace root names the link), or a parent directory of
+// the repository is a link ("link-parent")
+func via(ws *WS, how string) *WS {
+	ws.Via = how
+	ws.Name += "/via-" + how
+	return ws
+}
+
+// symlinkInside: the work tree is reached by its real path, but the argument goes through a symbolic link INSIDE the
+// work tree (l -> a, tracked): git names the file a/sub/t.rego, the command l/sub/t.rego
+func symlinkInside(state, kind string) *WS {
+	ws := &WS{Name: fmt.Sprintf("%s/%s/symlink-inside", state, kind), Policy: "error", NoForce: true, AbsArgs: true,
+		Git:       &GitSpec{States: map[string]string{}, IgnoreDirs: []string{"ign/"}, RepoDirs: []string{""}},
+		RegalDirs: []string{""}, Symlinks: map[string]string{"l": "a"}, Args: []string{"l/sub"}}
+	target := WFile{Path: "a/sub/t.rego", Pkg: "l.sub", ID: 1, Dirty: kind == "content"}
+	if kind != "content" {
+		target.Pkg = "moved.l.sub"
+	}
+	ws.Files = []WFile{target, {Path: "pol/clean.rego", Pkg: "pol", ID: 2}}
+	ws.Git.States[target.Path] = state
+	return ws
+}
+
 func genRandom(r *hutil.Rng, n int) *WS {
 	ws := &WS{Name: "rand" + strconv.Itoa(n), Policy: hutil.Choice(r, []string{"error", "rename"}), NoForce: r.Below(8) != 0,
 		DryRun: r.Below(10) == 0, RegalDirs: []string{""}, Git: &GitSpec{States: map[string]string{}, IgnoreDirs: []string{"ign/"}}}
@@ -155,6 +179,9 @@ func genRandom(r *hutil.Rng, n int) *WS {
 		ws.EmptyDirs = append(ws.EmptyDirs, "pol", "a")
 	}
 	ws.AbsArgs = r.Bool()
+	if r.Below(4) == 0 {
+		via(ws, hutil.Choice(r, []string{"link", "link-parent"}))
+	}
 	return ws
 }
 
@@ -234,6 +261,39 @@ func main() {
 							cases = append(cases, scenario(n, st, kind, lay, sp))
 						}
 					}
+				}
+			}
+			// the same through symbolic links: the repository (or a parent directory, or the argument itself) is a link
+			for si, st := range states {
+				for ki, kind := range []string{"content", "move"} {
+					for vi, how := range []string{"link", "link-parent"} {
+						for li, lay := range []string{"root", "deeper", "nested", "gitfile"} {
+							for pi, sp := range spellings {
+								n++
+								if tier != "thorough" {
+									// quick: the plain layout with absolute arguments and one more spelling, the deeper layout with
+									// one spelling, for every state x kind x kind of link; ignored files once
+									rot := si + ki + vi
+									keep := (lay == "root" && (sp == "abs" || pi == 1+rot%(len(spellings)-1))) ||
+										(lay == "deeper" && pi == (rot+2)%len(spellings))
+									if !keep || (st == "ignored" && !(lay == "root" && sp == "abs" && vi == 0)) {
+										continue
+									}
+								}
+								_ = li
+								cases = append(cases, via(scenario(n, st, kind, lay, sp), how))
+							}
+						}
+					}
+				}
+			}
+			// a link inside the work tree (predicate only, see tools/props/c14.py)
+			for _, st := range []string{"clean", "modified", "staged", "untracked"} {
+				for _, kind := range []string{"content", "move"} {
+					if tier != "thorough" && kind == "move" && st != "modified" {
+						continue
+					}
+					cases = append(cases, symlinkInside(st, kind))
 				}
 			}
 			rng := hutil.NewRng(hutil.SeedFromEnv() ^ 0xC14)
